@@ -54,17 +54,30 @@ def argv_of(job):
     if job.get("ops"):
         a += ["seq"] if len(a) == 8 else []
         a += [str(job["ops"])]
+    if job.get("warm"):
+        a += ["warm=1"]
+    if job.get("gens", 1) > 1:
+        a += [f"gens={job['gens']}"]
     return a
 
 
 def nthreads(job):
-    return job["K"] + (1 if job["main"] else 0)
+    """threads that run the full workload (the warm-up thread makes one draw per call site only)"""
+    return job["K"] * job.get("gens", 1) + (1 if job["main"] else 0)
+
+
+def warm_draws(job):
+    if not job.get("warm"):
+        return 0
+    if job.get("cycle"):
+        return len(job["cycle"])
+    return len(job["sizes"]) * (2 if job["types"] == "both" else 1)
 
 
 def draws_of(job):
     if job.get("cycle"):
-        return nthreads(job) * job["D"] * len(job["cycle"])
-    return nthreads(job) * job["D"] * (2 if job["types"] == "both" else 1) * len(job["sizes"])
+        return nthreads(job) * job["D"] * len(job["cycle"]) + warm_draws(job)
+    return nthreads(job) * job["D"] * (2 if job["types"] == "both" else 1) * len(job["sizes"]) + warm_draws(job)
 
 
 def words_of(job):
@@ -76,7 +89,7 @@ def words_of(job):
 
 
 def predicted_cost(job):
-    k = job["K"] + (1 if job["main"] else 0)
+    k = job["K"] + (1 if job["main"] else 0)  # concurrently live threads
     per = 0.0045 if k == 1 else 0.0045 + 0.0006 * k
     c = 1.5 + words_of(job) * per
     c += draws_of(job) * 0.004  # per-draw overhead (alloc, stamps, checks)
@@ -182,7 +195,7 @@ def parse_log(text):
 def interleaving_signature(run):
     """The schedule as observed: thread ids ordered by draw-completion stamp."""
     seq = [d["t"] for d in sorted(run["draws"], key=lambda d: d["s1"])]
-    return hashlib.sha256(bytes(seq)).hexdigest(), seq
+    return hashlib.sha256(",".join(map(str, seq)).encode()).hexdigest(), seq
 
 
 def repo_digest(repo=REPO):
